@@ -41,7 +41,36 @@ def gen(run, g, num, seed, steps):
     return res.printed
 
 
-def run_speaker(run, invs, kf_invs=None, design=None):
+MECH_CFG = """SPECIFICATION MSpec
+CONSTANTS
+  Peers <- P3
+  PInfo <- PI_%(g)s
+  Prefixes = %(pfx)s
+  LocalAS = 65000
+  MaxEvents = %(n)d
+  Codes = {0, 1, 3}
+  LocalCodes = {0}
+INVARIANTS
+  D_C01_ExportExact
+  D_C01_NothingStale
+  D_TypeOK
+CHECK_DEADLOCK FALSE
+"""
+
+
+def design_mech(run, thorough):
+    """Design level: the mechanism model (queues, coalescing sender, deliveries, stalls, session
+    up/down) satisfies the property layer in every interleaving, exhaustively for small bounds."""
+    if run.replay:
+        return
+    for g in GROUPS:
+        cfg = "MCSpeakerMech_%s_run.cfg" % g
+        v.write_cfg(run.sc, cfg, MECH_CFG % {"g": g, "pfx": '{"x1"}', "n": 6 if thorough else 5})
+        res = v.tlc(run.sc, "SpeakerMech", cfg, timeout=2400, coverage=thorough)
+        run.design(res, "SpeakerMech %s" % g)
+
+
+def run_speaker(run, invs, kf_invs=None, design=design_mech):
     thorough = run.tier == "thorough"
     if design:
         design(run, thorough)
